@@ -6,7 +6,7 @@ from oracles import adapter_o as A
 from props._util import rng_for, run_cases
 
 LEVEL = "other"
-DEDUCTIVE = [{"module": "rnapolis.adapter", "sidecar": "contracts.adapter_c", "targets": ["unify_classification"]}]
+DEDUCTIVE = [{"module": "rnapolis.adapter", "sidecar": "contracts.adapter_c", "targets": ["unify_classification", "unify_classification@callee", "lemma:label_languages_disjoint", "parse_unit_id", "_process_interaction_line", "parse_fr3d_output"]}]
 TRUSTED = ["orjson", "CPython str methods", "z3/cvc5 string theories"]
 ASSUMPTIONS = ["labels are ASCII in the deductive part (str.isdigit/lower/upper on non-ASCII are excluded by precondition); the bounded part is unrestricted on its alphabet"]
 EXPLANATION = "see DESIGN.md 4/C19"
